@@ -1,8 +1,266 @@
-/- Driver handler owned by property C05: `c05 <args…>` requests. -/
+/- Driver handler owned by property C05: `c05 <args…>` requests.
+
+   Types are written in prefix notation, one token per node:
+     `p <prim>` | `u` | `v <size> <align>` | `o T` | `r T E` | `d A R` | `l T`
+   host layouts `H` are ten comma-separated numbers
+     char.size,char.align,string.size,string.align,ipaddr…,prefix…,list…
+   `cfg` is `current` (generated from the source) or `pinned`.
+
+     c05 layout H T            → rust S A roto S A isref B lower X offs R… / U… asparam X
+     c05 sig H cfg RET ; P1 ; P2 …
+                                → roto <IrTypes> retptr B ret X rotoabi <…> -> X rustabi <…> -> X agree B
+     c05 call H cfg RET ; P…   → callsite <…> -> X callee <…> -> X agree B
+     c05 rtcall H cfg RET ; P… → roto <…> rust <…> agree B
+     c05 tags                  → Some=0 None=1 … | script Some=0 …
+     c05 place H T ; <value>   → rust <off:cell,…> roto <off:cell,…>
+     c05 roundtrip <shape> <value> → ok|bad  (untransform∘transform and scriptView∘transform)
+-/
 import Driver.Util
+import RotoV.Model.Boundary
 
 namespace Driver.C05
+open RotoV RotoV.Boundary RotoV.Gen.BoundaryTables
 
-def handle (_args : List String) : String := "bad-op"
+def primOf : String → Option Primitive
+  | "u8" => some (.Int .Unsigned .I8) | "u16" => some (.Int .Unsigned .I16)
+  | "u32" => some (.Int .Unsigned .I32) | "u64" => some (.Int .Unsigned .I64)
+  | "i8" => some (.Int .Signed .I8) | "i16" => some (.Int .Signed .I16)
+  | "i32" => some (.Int .Signed .I32) | "i64" => some (.Int .Signed .I64)
+  | "f32" => some (.Float .F32) | "f64" => some (.Float .F64)
+  | "bool" => some .Bool | "char" => some .Char | "Asn" => some .Asn
+  | "String" => some .String | "IpAddr" => some .IpAddr | "Prefix" => some .Prefix
+  | _ => none
+
+/-- parse one type from the token list (fuel = number of tokens) -/
+def parseTy : Nat → List String → Option (BTy × List String)
+  | 0, _ => none
+  | _ + 1, "u" :: rest => some (.unit, rest)
+  | _ + 1, "p" :: n :: rest => (primOf n).map fun p => (.prim p, rest)
+  | _ + 1, "v" :: s :: a :: rest =>
+    match s.toNat?, a.toNat? with
+    | some s, some a => some (.val ⟨s, a⟩, rest)
+    | _, _ => none
+  | f + 1, "o" :: rest => (parseTy f rest).map fun (t, r) => (.option t, r)
+  | f + 1, "l" :: rest => (parseTy f rest).map fun (t, r) => (.list t, r)
+  | f + 1, "r" :: rest =>
+    (parseTy f rest).bind fun (t, r) => (parseTy f r).map fun (e, r2) => (.result t e, r2)
+  | f + 1, "d" :: rest =>
+    (parseTy f rest).bind fun (t, r) => (parseTy f r).map fun (e, r2) => (.verdict t e, r2)
+  | _, _ => none
+
+def parseTyAll (ts : List String) : Option BTy :=
+  match parseTy (ts.length + 1) ts with
+  | some (t, []) => some t
+  | _ => none
+
+def parseHost (s : String) : Option HostLayouts :=
+  match (s.splitOn ",").map String.toNat? with
+  | [some a, some b, some c, some d, some e, some f, some g, some i, some j, some k] =>
+    some { char := ⟨a, b⟩, string := ⟨c, d⟩, ipaddr := ⟨e, f⟩, prefix_ := ⟨g, i⟩, list := ⟨j, k⟩ }
+  | _ => none
+
+def parseCfg : String → Option Cfg
+  | "current" => some Cfg.current
+  | "pinned" => some Cfg.pinned
+  | _ => none
+
+/-- split a token list on `;` -/
+def splitSemi (ts : List String) : List (List String) :=
+  let (cur, acc) := ts.foldl (fun (p : List String × List (List String)) t =>
+    if t == ";" then ([], p.1.reverse :: p.2) else (t :: p.1, p.2)) ([], [])
+  (cur.reverse :: acc).reverse
+
+def parseSig (ts : List String) : Option BSig :=
+  match splitSemi ts with
+  | [] => none
+  | r :: ps =>
+    match parseTyAll r, ps.mapM parseTyAll with
+    | some r, some ps => some ⟨ps, r⟩
+    | _, _ => none
+
+def showIr : IrType → String
+  | .Bool => "Bool" | .U8 => "U8" | .U16 => "U16" | .U32 => "U32" | .U64 => "U64"
+  | .I8 => "I8" | .I16 => "I16" | .I32 => "I32" | .I64 => "I64" | .F32 => "F32" | .F64 => "F64"
+  | .Char => "Char" | .Asn => "Asn" | .Pointer => "Pointer"
+def showAbi : AbiTy → String
+  | .I8 => "i8" | .I16 => "i16" | .I32 => "i32" | .I64 => "i64" | .F32 => "f32" | .F64 => "f64"
+def showOpt {α} (f : α → String) : Option α → String
+  | some a => f a | none => "none"
+def commas (xs : List String) : String := if xs.isEmpty then "-" else ",".intercalate xs
+def showB (b : Bool) : String := if b then "1" else "0"
+def showOB : Option Bool → String
+  | some b => showB b | none => "-"
+def showAbiSig (s : AbiSig) : String := s!"{commas (s.params.map showAbi)} -> {showOpt showAbi s.ret}"
+def showRes {α} (f : α → String) : Res α → String
+  | .ok a => f a | .panic => "panic"
+
+/-- payload offsets per variant with exactly one field: Roto's `VariantField` offset and the
+    closed-form Rust offset -/
+def offsets (h : HostLayouts) (t : BTy) : String :=
+  match toMTy t, t with
+  | .enum vs, _ =>
+    let roto := vs.map fun fs => match fs with
+      | [_] => showOpt toString (variantFieldOffset h fs 0)
+      | _ => "-"
+    let rust : List String := match t with
+      | .option a => (instVariants ⟨0, 1⟩ rotoOptionVariants [rustLayout h a]).map fun fs =>
+          match fs with | [l] => toString (payloadOffset l) | _ => "-"
+      | .result a b => (instVariants ⟨0, 1⟩ rotoResultVariants [rustLayout h a, rustLayout h b]).map fun fs =>
+          match fs with | [l] => toString (payloadOffset l) | _ => "-"
+      | .verdict a b => (instVariants ⟨0, 1⟩ verdictVariants [rustLayout h a, rustLayout h b]).map fun fs =>
+          match fs with | [l] => toString (payloadOffset l) | _ => "-"
+      | _ => []
+    s!"{commas roto} / {commas rust}"
+  | _, _ => "- / -"
+
+def doLayout (h : HostLayouts) (t : BTy) : String :=
+  let r := rustLayout h t
+  let ro := rotoLayout h t
+  let m := toMTy t
+  s!"rust {r.size} {r.align} roto {showOpt (fun (l : Layout) => s!"{l.size} {l.align}") ro} isref {showOB (isReferenceType Cfg.current h m)} lower {showRes (showOpt showIr) (lowerType Cfg.current h m)} offs {offsets h t} asparam {showRes (showOpt showAbi) (asParamAbi t)}"
+
+def doSig (c : Cfg) (h : HostLayouts) (s : BSig) : String :=
+  let irs := keepArgs c h c.sigFilter (s.params.map toMTy)
+  let rr := returnRule c h (toMTy s.ret)
+  let roto := rotoSig c h s
+  let rptr := match roto with | .ok (_, b) => b | .panic => false
+  let rust := rustSig h s rptr
+  let agree := match roto, rust with
+    | .ok (a, _), .ok b => decide (a = b)
+    | _, _ => false
+  s!"roto {showRes (fun xs => commas (xs.map showIr)) irs} retptr {showRes (fun (p : Option IrType × Bool) => showB p.2) rr} ret {showRes (fun (p : Option IrType × Bool) => showOpt showIr p.1) rr} rotoabi {showRes (fun (p : AbiSig × Bool) => showAbiSig p.1) roto} rustabi {showRes showAbiSig rust} agree {showB agree}"
+
+def doCall (c : Cfg) (h : HostLayouts) (s : BSig) : String :=
+  let site := rotoCallSite c h s
+  let callee := rotoSig c h s
+  let agree := match site, callee with
+    | .ok a, .ok (b, _) => decide (a = b)
+    | _, _ => false
+  s!"callsite {showRes showAbiSig site} callee {showRes (fun (p : AbiSig × Bool) => showAbiSig p.1) callee} agree {showB agree}"
+
+def doRtCall (c : Cfg) (h : HostLayouts) (s : BSig) : String :=
+  let roto := rotoRuntimeCall c h s
+  let rust := rustTrampoline s
+  let irs := keepArgs c h c.callRuntimeFilter (s.params.map toMTy)
+  let agree := match roto, rust with
+    | .ok a, .ok b => decide (a = b)
+    | _, _ => false
+  s!"params {showRes (fun xs => commas (xs.map showIr)) irs} roto {showRes showAbiSig roto} rust {showRes showAbiSig rust} agree {showB agree}"
+
+def showV : VName → String
+  | .Some => "Some" | .None => "None" | .Ok => "Ok" | .Err => "Err" | .Accept => "Accept" | .Reject => "Reject"
+
+def doTags : String :=
+  let f (tbls : EnumOf → List (VName × List Nat)) : String :=
+    " ".intercalate ([EnumOf.option, .result, .verdict].flatMap fun e =>
+      (tbls e).zipIdx.map fun (v, i) => s!"{showV v.1}={i}")
+  s!"{f rustTables} | script {f scriptTables} | question {questionMarkContinue} for {forBodyDiscriminant} listget {listGetSome} {listGetNone} {listGetProvisional}"
+
+/-- shapes: `f` leaf | `u` | `o S` | `r S S` | `d S S` | `l S` -/
+def parseShape : Nat → List String → Option (Shape × List String)
+  | 0, _ => none
+  | _ + 1, "f" :: rest => some (.leaf, rest)
+  | _ + 1, "u" :: rest => some (.unit, rest)
+  | f + 1, "o" :: rest => (parseShape f rest).map fun (t, r) => (.option t, r)
+  | f + 1, "l" :: rest => (parseShape f rest).map fun (t, r) => (.list t, r)
+  | f + 1, "r" :: rest =>
+    (parseShape f rest).bind fun (t, r) => (parseShape f r).map fun (e, r2) => (.result t e, r2)
+  | f + 1, "d" :: rest =>
+    (parseShape f rest).bind fun (t, r) => (parseShape f r).map fun (e, r2) => (.verdict t e, r2)
+  | _, _ => none
+
+mutual
+/-- values: `<n>` leaf | `u` | `S v` | `N` | `O v` | `E v` | `A v` | `R v` | `L <k> v1 … vk` -/
+partial def parseVal : List String → Option (RVal × List String)
+  | "u" :: rest => some (.unit, rest)
+  | "N" :: rest => some (.none, rest)
+  | "S" :: rest => (parseVal rest).map fun (v, r) => (.some v, r)
+  | "O" :: rest => (parseVal rest).map fun (v, r) => (.ok v, r)
+  | "E" :: rest => (parseVal rest).map fun (v, r) => (.err v, r)
+  | "A" :: rest => (parseVal rest).map fun (v, r) => (.accept v, r)
+  | "R" :: rest => (parseVal rest).map fun (v, r) => (.reject v, r)
+  | "L" :: k :: rest => (k.toNat?).bind fun k => (parseVals k rest).map fun (vs, r) => (.list vs, r)
+  | n :: rest => (n.toNat?).map fun n => (.leaf n, rest)
+  | [] => none
+partial def parseVals : Nat → List String → Option (List RVal × List String)
+  | 0, rest => some ([], rest)
+  | k + 1, rest => (parseVal rest).bind fun (v, r) => (parseVals k r).map fun (vs, r2) => (v :: vs, r2)
+end
+
+partial def showVal : RVal → String
+  | .leaf n => toString n
+  | .unit => "u"
+  | .none => "N"
+  | .some v => s!"S {showVal v}"
+  | .ok v => s!"O {showVal v}"
+  | .err v => s!"E {showVal v}"
+  | .accept v => s!"A {showVal v}"
+  | .reject v => s!"R {showVal v}"
+  | .list vs => s!"L {vs.length}" ++ String.join (vs.map fun v => " " ++ showVal v)
+
+partial def showT : TVal → String
+  | .leaf n => toString n
+  | .unit => "u"
+  | .tagged d none => s!"#{d}"
+  | .tagged d (some p) => s!"#{d}({showT p})"
+  | .list vs => "[" ++ " ".intercalate (vs.map showT) ++ "]"
+
+def doRoundtrip (ts : List String) : String :=
+  match parseShape (ts.length + 1) ts with
+  | some (sh, rest) =>
+    match parseVal rest with
+    | some (v, []) =>
+      match transform v with
+      | none => "no-transform"
+      | some t =>
+        s!"t {showT t} | un {showOpt showVal (untransform sh t)} | script {showOpt showVal (scriptView sh t)}"
+    | _ => "bad-op"
+  | none => "bad-op"
+
+def showCells (cs : Option (List (Nat × Cell))) : String :=
+  match cs with
+  | none => "none"
+  | some cs => commas (cs.map fun (o, c) => match c with
+      | .tag d => s!"{o}:t{d}"
+      | .leaf _ => s!"{o}:l"
+      | .handle => s!"{o}:h")
+
+/-- `c05 place H T ; <value>` → where the tags and leaves of `transform value` lie, on both sides -/
+def doPlace (h : HostLayouts) (ts : List String) : String :=
+  match splitSemi ts with
+  | [ty, val] =>
+    match parseTyAll ty, parseVal val with
+    | some t, some (v, []) =>
+      match transform v with
+      | some tv => s!"rust {showCells (rustPlace h t tv 0)} roto {showCells (rotoPlace h t tv 0)}"
+      | none => "no-transform"
+    | _, _ => "bad-op"
+  | _ => "bad-op"
+
+def handle (args : List String) : String :=
+  match args with
+  | "layout" :: h :: ty =>
+    match parseHost h, parseTyAll ty with
+    | some h, some t => doLayout h t
+    | _, _ => "bad-op"
+  | "sig" :: h :: c :: rest =>
+    match parseHost h, parseCfg c, parseSig rest with
+    | some h, some c, some s => doSig c h s
+    | _, _, _ => "bad-op"
+  | "call" :: h :: c :: rest =>
+    match parseHost h, parseCfg c, parseSig rest with
+    | some h, some c, some s => doCall c h s
+    | _, _, _ => "bad-op"
+  | "rtcall" :: h :: c :: rest =>
+    match parseHost h, parseCfg c, parseSig rest with
+    | some h, some c, some s => doRtCall c h s
+    | _, _, _ => "bad-op"
+  | "place" :: h :: rest =>
+    match parseHost h with
+    | some h => doPlace h rest
+    | none => "bad-op"
+  | ["tags"] => doTags
+  | "roundtrip" :: rest => doRoundtrip rest
+  | _ => "bad-op"
 
 end Driver.C05
